@@ -2,6 +2,7 @@ package main
 
 import (
 	"go/types"
+	"strings"
 
 	"golang.org/x/tools/go/ssa"
 )
@@ -150,6 +151,50 @@ func init() {
 			v = c.tb.Concat(bs[i], v)
 		}
 		return TupleV{v, IfaceV{}}
+	})
+	// encoding/binary.Write for integers (named or not) and byte slices: the reflect-based slow path is summarised
+	reg("encoding/binary.Write", func(c *Ctx, fn *ssa.Function, a []Value) Value {
+		w, order, data := a[0].(IfaceV), a[1].(IfaceV), a[2].(IfaceV)
+		little := strings.Contains(order.t.String(), "littleEndian")
+		if !little && !strings.Contains(order.t.String(), "bigEndian") {
+			c.unsupported("binary.Write with byte order " + order.t.String())
+		}
+		var out []*Term
+		switch v := data.v.(type) {
+		case *Term:
+			n := v.sort.bits
+			if n == 0 {
+				out = []*Term{c.tb.BoolToBV(v, 8)}
+			} else {
+				for i := 0; i < n/8; i++ {
+					out = append(out, c.tb.Extract(v, 8*i+7, 8*i))
+				}
+				if !little {
+					for i, j := 0, len(out)-1; i < j; i, j = i+1, j-1 {
+						out[i], out[j] = out[j], out[i]
+					}
+				}
+			}
+		case SliceV:
+			if el, ok := under(under(data.t).(*types.Slice).Elem()).(*types.Basic); !ok || el.Kind() != types.Uint8 {
+				c.unsupported("binary.Write of " + data.t.String())
+			}
+			out = c.bytesOf(v)
+		default:
+			c.unsupported("binary.Write of " + data.t.String())
+		}
+		var m *types.Func
+		ms := c.shared.prog.MethodSets.MethodSet(w.t)
+		for i := 0; i < ms.Len(); i++ {
+			if ms.At(i).Obj().Name() == "Write" {
+				m = ms.At(i).Obj().(*types.Func)
+			}
+		}
+		if m == nil {
+			c.unsupported("binary.Write: writer without Write method")
+		}
+		res := c.invoke(w, m, []Value{c.bytesSlice(out)}).(TupleV)
+		return res[1]
 	})
 	// strings.Builder: String() uses unsafe.String; copyCheck uses noescape tricks
 	reg("(*strings.Builder).String", func(c *Ctx, fn *ssa.Function, a []Value) Value {
